@@ -926,7 +926,7 @@ impl Pager {
     //@trusted Pager::read_page: contract proved from the real body in unit c18_pager (a successful read returns the stored content of that page)
     #[verifier::external_body]
     pub fn read_page(&self, page_id: PageId) -> (r: Result<[u8; PAGE_SIZE]>)
-        ensures r is Ok ==> r->Ok_0@ == pg(self, page_id.0)
+        ensures r is Ok ==> r->Ok_0@ == pg(self, page_id.0) && 2 <= page_id.0 < 65536
     { unimplemented!() }
     //@trusted Pager::write_page: contract proved from the real body in unit c18_pager (no other page changes; on success the page holds the given bytes)
     #[verifier::external_body]
@@ -1048,6 +1048,26 @@ impl<'a> BTreeCursor<'a> {
 //@| assert(BTreeCursor::exhausted(old(self), nn));
 //@proof before 2 "=return Ok(true);"
 //@| assert(BTreeCursor::skipped_to(old(self), self, nn));
+//@end
+}
+
+impl BTree {
+// C26.tree.cursor_lower_bound — the cursor a lookup/scan starts from is a faithful copy of a well-formed
+// leaf of the store, and it stands past the end of its leaf only when the leaf chain has ended (empty and
+// exhausted leaves are stepped over).  (WHICH leaf and slot - that no entry >= target lies left of it and
+// the entry under it is >= target - needs the cross-page ordering invariant and is not decided here.)
+// Termination not proved.
+//@extract nervusdb-storage/src/index/btree.rs BTree::cursor_lower_bound ret r
+//@attr #[verifier::exec_allows_no_decreases_clause]
+//@| requires tree_pages_ok(pager),
+//@| ensures r is Ok ==> r->Ok_0.ok() && r->Ok_0.pager == pager
+//@|     && (r->Ok_0.slot >= pg_count(r->Ok_0.buf@) ==> from_le64(r->Ok_0.buf@.subrange(16, 24)) == 0),
+//@loop 1
+//@| invariant tree_pages_ok(pager),
+//@loop 2
+//@| invariant tree_pages_ok(pager), leaf_buf@ == pg(pager, leaf_id.0), pg_kind_ok(leaf_buf@), leaf_buf@[4] == 0, leaf_wf(leaf_buf@), keys_sorted(leaf_cells(leaf_buf@)),
+//@|     leaf_id.0 != 0, slot <= pg_count(leaf_buf@),
+//@| ensures slot < pg_count(leaf_buf@) || from_le64(leaf_buf@.subrange(16, 24)) == 0,
 //@end
 }
 
